@@ -1315,6 +1315,91 @@ func normaliseOnce(pkgs map[string]*packages.Package) int {
 				}
 				return true
 			})
+			// (t) `for i := 0; i < len(xs); i++ {…}` over a slice the loop neither assigns nor indexes for writing,
+			// with an index it does not assign, is `for i := range xs {…}`
+			astutil.Apply(f, nil, func(c *astutil.Cursor) bool {
+				fs, ok := c.Node().(*ast.ForStmt)
+				if !ok || fs.Init == nil || fs.Cond == nil || fs.Post == nil {
+					return true
+				}
+				init, ok := fs.Init.(*ast.AssignStmt)
+				if !ok || init.Tok != token.DEFINE || len(init.Lhs) != 1 || len(init.Rhs) != 1 {
+					return true
+				}
+				iv, ok := init.Lhs[0].(*ast.Ident)
+				if lit, isLit := init.Rhs[0].(*ast.BasicLit); !ok || !isLit || lit.Value != "0" || info.Defs[iv] == nil {
+					return true
+				}
+				post, ok := fs.Post.(*ast.IncDecStmt)
+				if !ok || post.Tok != token.INC {
+					return true
+				}
+				if pid, ok := post.X.(*ast.Ident); !ok || info.Uses[pid] != info.Defs[iv] {
+					return true
+				}
+				cond, ok := fs.Cond.(*ast.BinaryExpr)
+				if !ok || cond.Op != token.LSS {
+					return true
+				}
+				if cid, ok := cond.X.(*ast.Ident); !ok || info.Uses[cid] != info.Defs[iv] {
+					return true
+				}
+				ln, ok := cond.Y.(*ast.CallExpr)
+				if !ok || len(ln.Args) != 1 || !pureExpr(ln.Args[0]) {
+					return true
+				}
+				if lid, ok := ln.Fun.(*ast.Ident); !ok || lid.Name != "len" || info.Uses[lid] == nil || info.Uses[lid].Pkg() != nil {
+					return true
+				}
+				xs := ln.Args[0]
+				if t := info.TypeOf(xs); t == nil {
+					return true
+				} else if _, isSlice := t.Underlying().(*types.Slice); !isSlice {
+					return true
+				}
+				root := exprText(xs)
+				bad := false
+				ast.Inspect(fs.Body, func(m ast.Node) bool {
+					switch x := m.(type) {
+					case *ast.AssignStmt:
+						for _, l := range x.Lhs {
+							lt := exprText(l)
+							if lt == root || strings.HasPrefix(lt, root+"[") || lt == iv.Name {
+								bad = true
+							}
+						}
+					case *ast.IncDecStmt:
+						lt := exprText(x.X)
+						if lt == root || strings.HasPrefix(lt, root+"[") || lt == iv.Name {
+							bad = true
+						}
+					case *ast.UnaryExpr:
+						if x.Op == token.AND {
+							if lt := exprText(x.X); lt == iv.Name || lt == root || strings.HasPrefix(lt, root+"[") {
+								bad = true
+							}
+						}
+					case *ast.CallExpr:
+						// a call handed the slice itself may change its elements: only reads of elements are allowed
+						for _, a := range x.Args {
+							if exprText(a) == root {
+								if id, ok := x.Fun.(*ast.Ident); !ok || id.Name != "len" {
+									bad = true
+								}
+							}
+						}
+					case *ast.FuncLit:
+						bad = true // a closure may capture the per-loop index variable
+					}
+					return true
+				})
+				if bad {
+					return true
+				}
+				c.Replace(&ast.RangeStmt{For: fs.For, Key: iv, TokPos: init.TokPos, Tok: token.DEFINE, X: xs, Body: fs.Body})
+				n++
+				return true
+			})
 			// (j) `for i := range xs { x := xs[i]; … }` is `for i, x := range xs { … }` (xs a slice that the loop does not assign)
 			astutil.Apply(f, nil, func(c *astutil.Cursor) bool {
 				rs, ok := c.Node().(*ast.RangeStmt)
@@ -1388,6 +1473,122 @@ func normaliseOnce(pkgs map[string]*packages.Package) int {
 					rs.Body.List = rs.Body.List[1:]
 				}
 				if useCount[info.Defs[kid]] == 1 {
+					kid.Name = "_"
+				}
+				n++
+				return true
+			})
+			// (u) `for i := range xs {… xs[i] …}` reading the element (never writing it, never taking its address) is
+			// `for i, e := range xs {… e …}`
+			astutil.Apply(f, nil, func(c *astutil.Cursor) bool {
+				rs, ok := c.Node().(*ast.RangeStmt)
+				if !ok || rs.Tok != token.DEFINE || rs.Value != nil || rs.Key == nil || !pureExpr(rs.X) {
+					return true
+				}
+				kid, ok := rs.Key.(*ast.Ident)
+				if !ok || kid.Name == "_" || info.Defs[kid] == nil {
+					return true
+				}
+				t := info.TypeOf(rs.X)
+				if t == nil {
+					return true
+				}
+				if _, isSlice := t.Underlying().(*types.Slice); !isSlice {
+					return true
+				}
+				root := exprText(rs.X)
+				elem := root + "[" + kid.Name + "]"
+				var reads []*ast.IndexExpr
+				bad := false
+				astutil.Apply(rs.Body, func(c2 *astutil.Cursor) bool {
+					switch x := c2.Node().(type) {
+					case *ast.AssignStmt:
+						for _, l := range x.Lhs {
+							lt := exprText(l)
+							if lt == root || strings.HasPrefix(lt, root+"[") || lt == kid.Name {
+								bad = true
+							}
+						}
+					case *ast.IncDecStmt:
+						lt := exprText(x.X)
+						if lt == root || strings.HasPrefix(lt, root+"[") || lt == kid.Name {
+							bad = true
+						}
+					case *ast.UnaryExpr:
+						if x.Op == token.AND && strings.HasPrefix(exprText(x.X), root) {
+							bad = true
+						}
+					case *ast.CallExpr:
+						for _, a := range x.Args {
+							if exprText(a) == root {
+								if id, ok := x.Fun.(*ast.Ident); !ok || id.Name != "len" {
+									bad = true
+								}
+							}
+						}
+					case *ast.FuncLit:
+						bad = true
+					case *ast.IndexExpr:
+						if exprText(x) == elem {
+							if id, ok := x.Index.(*ast.Ident); ok && info.Uses[id] == info.Defs[kid] {
+								reads = append(reads, x)
+								return false
+							}
+						}
+					}
+					return true
+				}, nil)
+				if bad || len(reads) == 0 {
+					return true
+				}
+				// a fresh name for the element
+				used := map[string]bool{}
+				ast.Inspect(rs.Body, func(m ast.Node) bool {
+					if id, ok := m.(*ast.Ident); ok {
+						used[id.Name] = true
+					}
+					return true
+				})
+				name := ""
+				for k := 0; k < 100 && name == ""; k++ {
+					cand := "elem" + strconv.Itoa(k)
+					if k == 0 {
+						cand = "elem"
+					}
+					if used[cand] {
+						continue
+					}
+					if sc := info.Scopes[rs]; sc != nil {
+						if _, o := sc.LookupParent(cand, rs.Body.Pos()); o != nil {
+							continue
+						}
+					}
+					name = cand
+				}
+				if name == "" {
+					return true
+				}
+				isRead := map[*ast.IndexExpr]bool{}
+				for _, x := range reads {
+					isRead[x] = true
+				}
+				astutil.Apply(rs.Body, func(c2 *astutil.Cursor) bool {
+					if ix, ok := c2.Node().(*ast.IndexExpr); ok && isRead[ix] {
+						c2.Replace(&ast.Ident{NamePos: ix.Pos(), Name: name})
+						return false
+					}
+					return true
+				}, nil)
+				rs.Value = &ast.Ident{NamePos: rs.X.Pos(), Name: name}
+				// is the index still used?
+				still := false
+				ast.Inspect(rs.Body, func(m ast.Node) bool {
+					if id, ok := m.(*ast.Ident); ok && info.Uses[id] == info.Defs[kid] {
+						still = true
+					}
+					return true
+				})
+				if !still {
 					kid.Name = "_"
 				}
 				n++
